@@ -500,10 +500,12 @@ def module_functions(module) -> Dict[str, ast.FunctionDef]:
 
 
 # ---------------------------------------------------------------------------------------------- locals
-def once_bound(fnode, scope=None) -> Dict[str, ast.expr]:
+def once_bound(fnode) -> Dict[str, ast.expr]:
     """{local: value} for names bound exactly once inside `fnode` by a plain `name = value` / `name: T = value`
-    (parameters, loop / with / except targets, tuple unpacking, augmented assignment, walrus excluded).  With `scope`
-    (an AST node inside fnode, e.g. a loop) the single binding only has to be unique in fnode but is looked for anywhere."""
+    (parameters, loop / with / except targets, tuple unpacking, augmented assignment, walrus excluded).  Cached on the node."""
+    cached = getattr(fnode, "_rob_e1_once_bound", None)
+    if cached is not None:
+        return cached
     counts: Dict[str, int] = {}
     vals: Dict[str, ast.expr] = {}
     for n, v, st in name_stores(fnode):
@@ -528,7 +530,12 @@ def once_bound(fnode, scope=None) -> Dict[str, ast.expr]:
             params.add(a.vararg.arg)
         if a.kwarg:
             params.add(a.kwarg.arg)
-    return {n: v for n, v in vals.items() if counts.get(n) == 1 and n not in params}
+    out = {n: v for n, v in vals.items() if counts.get(n) == 1 and n not in params}
+    try:
+        fnode._rob_e1_once_bound = out
+    except Exception:
+        pass
+    return out
 
 
 class _Subst(ast.NodeTransformer):
@@ -665,3 +672,66 @@ def virtual_return(fnode) -> Optional[Tuple[ast.Return, ast.expr]]:
     if grown != len(uses):
         return ret, v   # the list is used in some other way in between: leave it to the caller's idiom check
     return ret, expr
+
+
+# ---------------------------------------------------------------------------------------------- propositional guards
+def _formula(test):
+    """boolean structure of a test over normalised atom texts: ('atom', text) | ('not', f) | ('and', [f..]) | ('or', [f..])"""
+    if isinstance(test, ast.UnaryOp) and isinstance(test.op, ast.Not):
+        return ("not", _formula(test.operand))
+    if isinstance(test, ast.BoolOp):
+        return ("and" if isinstance(test.op, ast.And) else "or", [_formula(v) for v in test.values])
+    atoms = test_atoms(test, True)
+    if len(atoms) == 1:
+        text, pol = atoms[0]
+        return ("atom", text) if pol else ("not", ("atom", text))
+    return ("atom", unparse(test))
+
+
+def _atoms_of(fm, out):
+    if fm[0] == "atom":
+        out.add(fm[1])
+    elif fm[0] == "not":
+        _atoms_of(fm[1], out)
+    else:
+        for x in fm[1]:
+            _atoms_of(x, out)
+
+
+def _eval_formula(fm, val):
+    if fm[0] == "atom":
+        return val[fm[1]]
+    if fm[0] == "not":
+        return not _eval_formula(fm[1], val)
+    if fm[0] == "and":
+        return all(_eval_formula(x, val) for x in fm[1])
+    return any(_eval_formula(x, val) for x in fm[1])
+
+
+def guards_imply(guards, atom_text: str, value: bool, defs: Optional[Dict[str, ast.expr]] = None, max_atoms: int = 10) -> bool:
+    """Do the branch outcomes `guards` [(test, polarity)] entail `atom_text == value`?  Decided by enumerating the truth
+    assignments of the atoms (the atoms are treated as independent propositions: sound for an 'is entailed' answer).
+    `if a and b: raise` followed by `if a: return` entails `not b` at the return -- which a per-test atom split cannot see."""
+    fms = []
+    for t, p in guards:
+        if defs:
+            t = expand(t, defs)
+        fm = _formula(t)
+        fms.append(fm if p else ("not", fm))
+    names = set()
+    for fm in fms:
+        _atoms_of(fm, names)
+    if atom_text not in names:
+        return False
+    names = sorted(names)
+    if len(names) > max_atoms:
+        # fall back to the conjunctive split
+        return (atom_text, value) in guard_atoms(guards)
+    sat = False
+    for bits in range(1 << len(names)):
+        val = {n: bool(bits >> i & 1) for i, n in enumerate(names)}
+        if all(_eval_formula(fm, val) for fm in fms):
+            sat = True
+            if val[atom_text] != value:
+                return False
+    return sat
